@@ -1676,6 +1676,12 @@ func (tx *Transaction) auditLogCollectFiles() []plugintypes.AuditLogTransactionR
 // This method helps the GC to clean up the transaction faster and release resources
 // It also allows caches the transaction back into the sync.Pool
 func (tx *Transaction) Close() error {
+	if tx.id == "" {
+		// Close has already run for this use of the object (a live transaction always has an id): the object is
+		// back in the pool and must not be put there a second time, or two later transactions would share it.
+		return nil
+	}
+	tx.id = ""
 	defer tx.WAF.txPool.Put(tx)
 
 	var errs []error
